@@ -11,7 +11,7 @@ ID = "C11"
 PROPS = "Props/C11.v"
 IMPORTS = ("From Coq Require Import PrimFloat.\n"
            "From PV Require Import Lib.Common Model.C11_Map Model.C11_MapFn Model.C11_Check.")
-SHARD = 12
+SHARD = 18
 LEVEL_TEXT = ("Coq theorems: over R, Haldane and Kosambi map 0 to 0, [0,inf) into [0,1/2), are strictly increasing, tend to 1/2 "
               "and are undone by their inverses (both directions); over an exact-rational executable model of both genetic-map classes: "
               "the constructor's stable sort is a sorted permutation and its result does not depend on the row order (distinct keys), "
